@@ -14,7 +14,7 @@ import ast
 from typing import Dict, List, Optional, Set, Tuple
 
 from ..astq import assignments_to, call_name, names_in, occ, stmt_of, in_subtree
-from ..logic import guard_clauses, guards
+from ..logic import consistent_with, guard_clauses, guards
 from ..model import AnalysisError, Func, ancestors, first_line, is_self_attr, norm, walk_local, parent
 from ..report import Ob, rule
 from .index_state import fields_of
@@ -216,9 +216,15 @@ def exact_index_answers(ctx):
     if len(by_func) < 7:
         raise AnalysisError("C01.R1", f"expected >=7 consumers of Index.search, found {sorted(by_func)}")
     all_sanitise = all(_sanitises(ctx, cf) for cf in by_func.values())
+    kinds_seen: Dict[str, int] = {}
     for r, v, why in details:
         ok = v == EXACT or all_sanitise
-        yield Ob("C01.R1", ["C01", "C02", "C03"], f"{f.qual} | result exactness | {first_line(stmt_of(r), 90)}{occ(f, r)}",
+        # construct key by role (no local variable names): what kind of result this return hands out
+        kind = why.split(" (")[0] if why.startswith("leaf") else (
+            "items replaced by the universe" if "universe" in why else why.split(" (")[0])
+        kinds_seen[kind] = kinds_seen.get(kind, 0) + 1
+        kkey = kind + (f" #{kinds_seen[kind]}" if kinds_seen[kind] > 1 else "")
+        yield Ob("C01.R1", ["C01", "C02", "C03"], f"{f.qual} | result exactness | {kkey}",
                  ok, f"{v}: {why}" if v == EXACT else
                  f"returns a {v} position set ({why}) that consumers use as the exact match set",
                  ctx.prog.loc(r), {"abstract_value": v, "summary": S})
@@ -452,48 +458,54 @@ def algebra_homomorphism(ctx):
                          ctx.prog.loc(c))
     # (b) operator branches
     want = {"operator.and_": (ast.BitAnd, 2), "operator.or_": (ast.BitOr, 2), "operator.not_": (ast.Invert, 1)}
-    seen = set()
     qp = f.params()[1]
-    for n in walk_local(f.node):
-        if isinstance(n, ast.If) and isinstance(n.test, ast.Compare) and isinstance(n.test.ops[0], ast.Eq) \
-                and norm(n.test.comparators[0]) in want and norm(n.test.left) == f"{qp}.operator":
-            opn = norm(n.test.comparators[0])
-            seen.add(opn)
-            opc, arity = want[opn]
-            rets = [r for s in n.body for r in ast.walk(s) if isinstance(r, ast.Return)]
-            rec = [c for s in n.body for c in ast.walk(s) if isinstance(c, ast.Call) and isinstance(c.func, ast.Attribute)
-                   and c.func.attr == f.name]
-            operands = sorted(norm(c.args[0]) for c in rec if c.args)
-            exp = [f"{qp}.query1", f"{qp}.query2"][:arity]
-            bad = []
-            if operands != exp:
-                bad.append(f"recursive calls visit {operands}, expected {exp}")
-            good_ret = False
-            for r in rets:
-                v = r.value
-                if arity == 2 and isinstance(v, ast.BinOp) and isinstance(v.op, opc):
-                    good_ret = True
-                if arity == 1 and isinstance(v, ast.UnaryOp) and isinstance(v.op, opc):
-                    good_ret = True
-            if not good_ret:
-                bad.append(f"no return applies the IndexResult operator for {opn}")
-            for r in rets:
-                v = r.value
-                if arity == 2 and not (isinstance(v, ast.BinOp) and isinstance(v.op, opc)):
-                    bad.append(f"return `{norm(v, 40)}` does not combine with the matching operator")
-                if arity == 2 and isinstance(v, ast.BinOp):
-                    names = {norm(v.left), norm(v.right)}
-                    if len(names) != 2:
-                        bad.append("both operands of the combination are the same result")
-                    else:
-                        for nm in names:
-                            vals = [x for x in assignments_to(f, nm) if in_subtree(x, n)]
-                            if not vals or not all(isinstance(x, ast.Call) and call_name(x) == f.name for x in vals):
-                                bad.append(f"operand {nm} is not a recursive search result")
-            yield Ob("C01.R4", ["C01", "C09"], f"{f.qual} | branch {opn}", not bad,
-                     "; ".join(bad) if bad else f"{opn} maps to the matching IndexResult operator on {exp}",
-                     ctx.prog.loc(n))
-    missing = set(want) - seen
+    # guard-based: which returns can execute when query.operator is X (and is none of the others)?
+    rets_all = [r for r in walk_local(f.node) if isinstance(r, ast.Return)]
+    atoms = {opn: "eq(" + ",".join(sorted([opn, f"{qp}.operator"])) + ")" for opn in want}
+    rcl = {}
+    for r in rets_all:
+        cl = guard_clauses(guards(r))
+        if any(a_ in {l[0] for c in cl for l in c} for a_ in atoms.values()):
+            rcl[r] = cl
+
+    def under(cl, opn):
+        facts = [(atoms[o], o == opn) for o in want] + [(f"truthy(isinstance({qp}, CompoundQuery))", True)]
+        return consistent_with(cl, facts)
+    missing = set()
+    for opn, (opc, arity) in want.items():
+        rets = [r for r, cl in rcl.items() if under(cl, opn)]
+        if not rets:
+            missing.add(opn)
+            continue
+        exp = [f"{qp}.query1", f"{qp}.query2"][:arity]
+        bad = []
+        for r in rets:
+            v = r.value
+            if arity == 2 and not (isinstance(v, ast.BinOp) and isinstance(v.op, opc)):
+                bad.append(f"return `{norm(v, 40)}` does not combine with the matching operator")
+                continue
+            if arity == 1 and not (isinstance(v, ast.UnaryOp) and isinstance(v.op, opc)):
+                # the negation branch may also answer through an explicit (conservative) construction; R1 judges that
+                continue
+            parts = [v.left, v.right] if arity == 2 else [v.operand]
+            visited = []
+            for part in parts:
+                if isinstance(part, ast.Name):
+                    vals = [x for x in assignments_to(f, part.id) if under(guard_clauses(guards(x)), opn)]
+                else:
+                    vals = [part]
+                if not vals or not all(isinstance(x, ast.Call) and call_name(x) == f.name and x.args for x in vals):
+                    bad.append(f"operand {norm(part, 30)} is not a recursive search result")
+                    continue
+                visited.append(sorted({norm(x.args[0]) for x in vals}))
+            if not bad and sorted(sum(visited, [])) != exp:
+                bad.append(f"recursive calls visit {sorted(sum(visited, []))}, expected {exp}")
+        if arity == 1 and not any(isinstance(r.value, ast.UnaryOp) and isinstance(r.value.op, opc) for r in rets):
+            bad.append(f"no return applies the IndexResult operator for {opn}")
+        anchor = rets[0]
+        yield Ob("C01.R4", ["C01", "C09"], f"{f.qual} | branch {opn}", not bad,
+                 "; ".join(bad) if bad else f"{opn} maps to the matching IndexResult operator on {exp}",
+                 ctx.prog.loc(anchor))
     if missing:
         raise AnalysisError("C01.R4", f"compound branches not found in {f.qual}: {sorted(missing)}")
     # (c) leaf dispatch keys == _point_attr literals of the query classes, and each leaf reads its own map
@@ -618,8 +630,23 @@ def _equal_run_problems(ctx, f: Func, body, mvar: str, S: str, P: str, shape: st
                             hp = k_.arg
                     if hp is not None:
                         places.append((h.node.body, hp))
+    # a plain copy of the boundary rank (k = match) is the same cursor
+    for st in body:
+        if isinstance(st, ast.Assign) and len(st.targets) == 1 and isinstance(st.targets[0], ast.Name) \
+                and isinstance(st.value, ast.Name) and st.value.id == mvar:
+            places.append((body, st.targets[0].id))
+    best = None
+    for place in places:
+        got = _equal_run_at(place, S, P, shape, final)
+        if best is None or len(got) < len(best):
+            best = got
+    return best or []
+
+
+def _equal_run_at(place, S: str, P: str, shape: str, final) -> list:
+    bad = []
     found = None
-    for stmts, var in places:
+    for stmts, var in [place]:
         for st in stmts:
             if not isinstance(st, (ast.While, ast.For)):
                 continue
@@ -637,10 +664,20 @@ def _equal_run_problems(ctx, f: Func, body, mvar: str, S: str, P: str, shape: st
             if isinstance(x, ast.Subscript) and is_self_attr(x.value, P) and norm(x.slice) == var]
     if not seed:
         bad.append(f"the boundary position self.{P}[{var}] itself is not collected")
+    fresh_cursor = None
     if isinstance(loop, ast.While):
-        if norm(loop.test) not in (f"{var} < len(self.{S})", f"len(self.{S}) > {var}"):
-            bad.append(f"scan condition is `{norm(loop.test)}`, expected `{var} < len(self.{S})` (the last entry must be inspected)")
-        idx = var
+        # a separate cursor initialised to <boundary> + 1 is the same scan
+        t_ = loop.test
+        if isinstance(t_, ast.Compare) and len(t_.ops) == 1 and isinstance(t_.ops[0], ast.Lt) and isinstance(t_.left, ast.Name) \
+                and t_.left.id != var:
+            inits = [x for x in stmts[:stmts.index(loop)] if isinstance(x, ast.Assign) and len(x.targets) == 1
+                     and norm(x.targets[0]) == t_.left.id]
+            if len(inits) == 1 and norm(inits[0].value) in (f"{var} + 1", f"1 + {var}"):
+                fresh_cursor = t_.left.id
+        cur = fresh_cursor or var
+        if norm(loop.test) not in (f"{cur} < len(self.{S})", f"len(self.{S}) > {cur}"):
+            bad.append(f"scan condition is `{norm(loop.test)}`, expected `{cur} < len(self.{S})` (the last entry must be inspected)")
+        idx = cur
     else:
         idx = norm(loop.target)
     for c_ in cmps:
@@ -668,7 +705,10 @@ def _equal_run_problems(ctx, f: Func, body, mvar: str, S: str, P: str, shape: st
         if kinds != ["cmp", "add", "adv"]:
             bad.append(f"scan body order is {kinds}, expected compare, collect, advance")
         pre = [x for x in stmts[:stmts.index(loop)] if isinstance(x, ast.AugAssign) and norm(x.target) == idx]
-        if len(pre) != 1 or norm(pre[0].value) != "1":
+        if fresh_cursor is not None:
+            if pre:
+                bad.append("the scan does not start at the entry after the boundary")
+        elif len(pre) != 1 or norm(pre[0].value) != "1":
             bad.append("the scan does not start at the entry after the boundary")
     # what the branch finally returns
     if shape == "run":
